@@ -152,6 +152,28 @@ def strip(e):
     return e
 
 
+def ds(e):
+    """deep strip: remove borrows/derefs at every level (object identity, not pointer-ness)"""
+    if not isinstance(e, tuple) or not e:
+        return e
+    op = e[0]
+    if op in ("ref", "deref"):
+        return ds(e[1])
+    if op == "call":
+        return ("call", e[1], e[2], tuple(ds(a) for a in e[3]), e[4])
+    if op == "agg":
+        return e[:3] + (tuple(ds(a) for a in e[3]),) + e[4:]
+    if op == "binop":
+        return ("binop", e[1], ds(e[2]), ds(e[3]))
+    if op in ("unop", "cast"):
+        return (op, e[1], ds(e[2])) + e[3:]
+    if op in ("field", "downcast", "discr"):
+        return (op, ds(e[1])) + e[2:]
+    if op == "index":
+        return ("index", ds(e[1]), ds(e[2]))
+    return e
+
+
 def is_call(e, *names):
     e = strip(e)
     return isinstance(e, tuple) and e[0] == "call" and (not names or e[1] in names)
